@@ -225,6 +225,58 @@ def check_combine(ctx, DP, h1, h2, merge, retention, comb):
     ctx.sig(("combine", merge, retention, comb, len(pairs), len(set(p[0] for p in pairs))), len(pairs) >= 2)
 
 
+def check_proxy_combine(ctx, DP, h1, h2, merge, retention, comb, k):
+    """Operands are cells of 1-3 dimensional tables (EntryProxy), one possibly unwritten while a NEIGHBOURING cell
+    is written; result compared with the model over the retained candidates; plus Table.entry(value, infos)."""
+    case = {"kind": "proxy_combine", "h1": [list(h) for h in h1], "h2": [list(h) for h in h2], "merge": merge, "retention": retention, "comb": comb, "k": k}
+    mp = getattr(DP.MergePolicy, merge)
+    rp = getattr(DP.RetentionPolicy, retention)
+    try:
+        if k % 3 == 0:
+            t = DP.Table((DP.ListDimension(3), DP.DictDimension()), mp, rp)
+            c1, c2, other = t[0]["x"], t[2]["y"], t[0]["neighbour"]
+        elif k % 3 == 1:
+            t = DP.Table((DP.DictDimension(), DP.DictDimension(), DP.ListDimension(2)), mp, rp)
+            c1, c2, other = t["a"]["b"][0], t["a"]["b"][1], t["a"]["c"][0]
+        else:
+            t = DP.Table((DP.ListDimension(4),), mp, rp)
+            c1, c2, other = t[0], t[3], t[1]
+        other.update(DP.Candidate(1, "n"))
+        if h1:
+            c1.update(*[DP.Candidate(v, tg) for v, tg in h1])
+        if h2:
+            c2.update(*[DP.Candidate(v, tg) for v, tg in h2])
+        f = COMBINATORS[comb](DP)
+        r = c1.combine(c2, f)
+        read = read_entry(r)
+        pairs = []
+        for t1 in c1.infos():
+            for t2 in c2.infos():
+                cnd = f(DP.Candidate(c1.value(), t1), DP.Candidate(c2.value(), t2))
+                pairs.append((num(cnd.value), cnd.info))
+        ctx.count("evaluations")
+        ctx.count("mon.combine")
+        ctx.count("mon.proxy_combine")
+        for msg in judge(read, pairs, merge == "MIN", retention):
+            ctx.viol("C16.combine", case, f"combine of table cells: {msg}")
+        # the operands themselves still read as their histories say (a neighbour's write must not leak)
+        for cell, hist in ((c1, h1), (c2, h2)):
+            for msg in judge(read_entry(cell), list(hist), merge == "MIN", retention):
+                ctx.viol("C16.history", case, f"table cell next to a written neighbour: {msg}")
+        # Table.entry(value, infos): explicit initial state, then updates
+        tags = sorted({tg for _, tg in h1 if tg})
+        e = t.entry(1, tags)
+        e.update(*[DP.Candidate(v, tg) for v, tg in h2])
+        init = [(1, tg) for tg in tags] or [(1, None)]
+        if retention == "NONE" or (retention == "ANY" and len(tags) > 1):
+            return  # an explicit initial tag set outside the policy is the caller's business
+        for msg in judge(read_entry(e), init + list(h2), merge == "MIN", retention):
+            ctx.viol("C16.history", case, f"Table.entry(1, {tags}) then updates: {msg}")
+        ctx.sig(("proxy", merge, retention, comb, len(pairs), k % 3), True)
+    except Exception as exc:  # noqa: BLE001
+        ctx.viol("C16.combine", case, f"exception {type(exc).__name__}: {exc}")
+
+
 # ------------------------------------------------------------------ in situ
 class Shadow:
     """L2: record the update history of every Entry created while real solvers run."""
@@ -340,6 +392,10 @@ def run(ctx, spec):
             h1 = [(v, t or "x") for v, t in h1]
             h2 = [(v, t or "y") for v, t in h2]
         check_combine(ctx, DP, h1, h2, merge, retention, comb)
+    # combine where the operands are table cells (proxies), possibly never written, and Table.entry(value, infos)
+    for k in range(150 if ctx.tier == "quick" else 1500):
+        merge, retention = rng.choice(policies)
+        check_proxy_combine(ctx, DP, rng.choice(short), rng.choice(short), merge, retention, rng.choice(["sum", "sum_plus_tag"]), k)
     # combine of entries holding many tied tags (ALL) and with MAX policy
     for k in range(200 if ctx.tier == 'quick' else 3000):
         n1, n2 = rng.randint(1, 6), rng.randint(1, 6)
@@ -372,6 +428,8 @@ def replay(ctx, case):
     if case["kind"] == "hist":
         hist = [tuple(tuple(x) if isinstance(x, list) else x for x in h) for h in case["history"]]
         check_history(ctx, DP, hist, tuple(case["batches"]), case["merge"], case["retention"], case["container"])
+    elif case["kind"] == "proxy_combine":
+        check_proxy_combine(ctx, DP, [tuple(h) for h in case["h1"]], [tuple(h) for h in case["h2"]], case["merge"], case["retention"], case["comb"], case["k"])
     elif case["kind"] == "combine":
         check_combine(ctx, DP, [tuple(h) for h in case["h1"]], [tuple(h) for h in case["h2"]], case["merge"], case["retention"], case["comb"])
     else:
